@@ -104,13 +104,13 @@ Fixpoint dec_loop (src : bytes) (i pad cur : N) (out : bytes) : bool * dctx * by
 (* base64_decode_update (x, ...): returns (err, ctx', bytes written before the NUL) *)
 Definition decode_update (x : dctx) (src : bytes) : bool * dctx * bytes :=
   let '(err, x', out) := dec_loop src (d_i x) (d_pad x) (d_cur x) [] in
-  (err, x', rev out).
+  (err, x', rev_append out []).   (* = rev out, linear *)
 Definition decode_final (x : dctx) : bool := negb ((d_i x + d_pad x) mod 4 =? 0).
 
 (* base64_decode_block: (err, output) *)
 Definition decode_block (src : bytes) : bool * bytes :=
   let '(err, x', out) := dec_loop src 0 0 0 [] in
-  (err || negb ((d_i x' + d_pad x') mod 4 =? 0), rev out).
+  (err || negb ((d_i x' + d_pad x') mod 4 =? 0), rev_append out []).
 
 Definition decode_ok (src : bytes) : option bytes :=
   let '(err, out) := decode_block src in if err then None else Some out.
